@@ -288,7 +288,15 @@ func (f *fwd) sendOne(i int) {
 		if f.p.PreparedBatches {
 			n = 2 + ch.Choose("batchn2", 3)
 		}
+		foreignOK := len(f.p.Kinds) > kExecForeign && f.p.Kinds[kExecForeign] > 0
 		for j := 0; j < n; j++ {
+			if foreignOK && ch.Choose("foreignchild", 6) == 5 {
+				// a child the backends know but the proxy never saw prepared: the proxy cannot
+				// know its text, so the whole batch is not positively idempotent
+				idem = false
+				b.Children = append(b.Children, &message.BatchChild{Id: f.foreignID(), Values: []*primitive.Value{primitive.NewValue([]byte(tok))}})
+				continue
+			}
 			if !(f.p.PreparedBatches && ch.Choose("allprep", 4) != 0) && ch.Choose("batchchild", 2) == 0 {
 				st := world.DrawMutation(ch, "'"+tok+"'", "ks.t")
 				if f.p.RichCQL && ch.Choose("richchild", 2) == 1 {
